@@ -12,8 +12,8 @@ import (
 // UNTRANSLATABLE comment (never a guess); if coqc is available the output must compile.
 func TestSubset(t *testing.T) {
 	var wl []entry
-	for _, n := range []string{"okSwitch", "okJoin", "okShift", "okWrap", "okStruct", "okSlice", "okBreak",
-		"badShadow", "badWhile", "badDecreasing", "badBoundMoves", "badFallthrough", "badCall", "badMap", "badWrite",
+	for _, n := range []string{"okSwitch", "okJoin", "okShift", "okWrap", "okStruct", "okSlice", "okBreak", "okShadow", "okHasX", "okVar", "okNil", "okI64", "badNilDeref",
+		"badWhile", "badDecreasing", "badBoundMoves", "badFallthrough", "badCall", "badMap", "badWrite",
 		"badRangeString", "badBareReturn", "badGoto", "badClosure", "badIntShift", "badStringOfByte", "badBreakInSwitch",
 		"badDefer", "badConstOverflow", "missing"} {
 		wl = append(wl, entry{file: "pkg/a.go", name: n})
@@ -33,6 +33,9 @@ func TestSubset(t *testing.T) {
 		"Prims.wrap 32", "Prims.usub 32", "65%nat", // fixed width arithmetic, shift-loop fuel
 		"Record pt := { pt_name : list N; pt_n : N }",
 		"(k =? 0%Z)%Z || (k =? 1%Z)%Z", // iota constants
+		"let a__1 := (a + 2%Z)%Z in",   // a shadowing variable gets a fresh name
+		"| Some q =>",                  // nil guard
+		"Prims.i64_quot a 1000%N",
 	} {
 		if !strings.Contains(out, want) {
 			t.Errorf("output lacks %q", want)
